@@ -3,7 +3,7 @@
 (* Memory attributes of hwloc (property C14).                              *)
 (*                                                                         *)
 (* Part 1 (abstract): the property itself.  The abstract state is          *)
-(*    S = [topo, user, ref, weak]                                          *)
+(*    S = [topo, user, ref, weak, pool]                                    *)
 (*  topo  what the attributes depend on: PUs, NUMA nodes with cpuset and   *)
 (*        local memory, and the other objects used as targets/initiators   *)
 (*  user  sequence of [name, flags] of the registered attributes           *)
@@ -13,6 +13,10 @@
 (*        disjoint (or were given outside the topology): the property      *)
 (*        promises nothing precise for them, only the weak contract        *)
 (*        "a query returns some stored value or fails".                    *)
+(*  pool  set of [a, t, val]: every value stored for <<a, t>> since it last *)
+(*        had no entry at all - the "some stored value" of the weak         *)
+(*        contract (restrict may clip away the entry a value was given for  *)
+(*        while the value legitimately lives on in an overlapping one).     *)
 (* Every public query has a relation  <Query>OK(S, arguments, results)     *)
 (* which is the only thing a recorded execution is judged by.              *)
 (*                                                                         *)
@@ -101,6 +105,7 @@ E(S, a, t) ==
   ELSE {e \in S.ref : e.a = a /\ e.t = t}
 TargetsOf(S, a) == IF IsConv(a) THEN S.topo.nodes ELSE {e.t : e \in {x \in S.ref : x.a = a}}
 AnyVals(S, a, t) == {e.val : e \in E(S, a, t)}
+PoolVals(S, a, t) == {p.val : p \in {x \in S.pool : x.a = a /\ x.t = t}}
 \* the weak contract applies
 Loose(S, a, f, t, q) == NeedIni(f) /\ (<<a, t>> \in S.weak \/ (q.k = "c" /\ q.s = {}))
 MatchVals(S, a, f, t, q) ==
@@ -137,7 +142,8 @@ SetApply(S, ai, a, t, q, v) ==
                       \/ q.k = "c" /\ ~(q.s \subseteq S.topo.pus)
                       \/ q.k = "c" /\ \E e \in es : e.ini.k = "c" /\ e.ini.s # q.s /\ e.ini.s \cap q.s # {}
        IN [S EXCEPT !.ref = (IF wasweak THEN @ ELSE {e \in @ : ~(e.a = a /\ e.t = t /\ e.ini = q)}) \cup {Entry(a, t, q, v)},
-                    !.weak = IF nowweak THEN @ \cup {<<a, t>>} ELSE @]
+                    !.weak = IF nowweak THEN @ \cup {<<a, t>>} ELSE @,
+                    !.pool = @ \cup {[a |-> a, t |-> t, val |-> v]}]
 
 \* restrict: entries of removed targets, of removed initiator objects and of emptied initiator cpusets disappear,
 \* the others keep their value (cpusets are clipped to the remaining PUs)
@@ -148,7 +154,9 @@ ClipIni(ini, topo2) == IF ini.k = "c" THEN CpuIni(ini.s \cap topo2.pus) ELSE ini
 ClipRef(ref, topo2) == {[e EXCEPT !.ini = ClipIni(e.ini, topo2)] : e \in {x \in ref : HasObj(topo2, x.t) /\ IniSurvives(x.ini, topo2)}}
 ClipWeak(weak, ref2) == {w \in weak : \E e \in ref2 : e.a = w[1] /\ e.t = w[2]}
 RestrictApply(S, topo2) ==
-  LET r2 == ClipRef(S.ref, topo2) IN [S EXCEPT !.topo = topo2, !.ref = r2, !.weak = ClipWeak(@, r2)]
+  LET r2 == ClipRef(S.ref, topo2) IN
+  [S EXCEPT !.topo = topo2, !.ref = r2, !.weak = ClipWeak(@, r2),
+            !.pool = {p \in @ : \E e \in r2 : e.a = p.a /\ e.t = p.t}]
 \* what restrict may do to the part of the topology the attributes depend on
 RestrictTopoOK(t1, t2) ==
   /\ t2.pus \subseteq t1.pus /\ t2.nodes \subseteq t1.nodes /\ t2.objs \subseteq t1.objs
@@ -161,7 +169,7 @@ GetValueOK(S, ai, a, t, q, qf, ret, errno, val) ==
   ELSE IF a = "Capacity" THEN (IF t \in S.topo.nodes THEN ret = 0 /\ val = S.topo.nmem[t] ELSE ret = -1)
   ELSE IF a = "Locality" THEN ret = 0 /\ val = VInt(Cardinality(CpusOf(S.topo, t)))
   ELSE LET f == ai.flags IN
-       IF Loose(S, a, f, t, q) THEN ret = -1 \/ (ret = 0 /\ val \in AnyVals(S, a, t))
+       IF Loose(S, a, f, t, q) THEN ret = -1 \/ (ret = 0 /\ val \in PoolVals(S, a, t))
        ELSE LET mv == MatchVals(S, a, f, t, q) IN
             IF mv = {} THEN ret = -1 ELSE ret = 0 /\ val \in mv
 
@@ -176,7 +184,7 @@ GetTargetsOK(S, ai, a, q, nrin, ret, errno, nrout, filled) ==
            may == must \cup {t \in T : W(t) \/ (filter /\ Loose(S, a, f, t, q))}
            ValOK(t, v) == IF ~NeedIni(f) THEN v \in AnyVals(S, a, t)
                           ELSE IF ~filter THEN TRUE                  \* no initiator given: the value is unspecified
-                          ELSE IF Loose(S, a, f, t, q) THEN v \in AnyVals(S, a, t)
+                          ELSE IF Loose(S, a, f, t, q) THEN v \in PoolVals(S, a, t)
                           ELSE v \in MatchVals(S, a, f, t, q)
        IN /\ ret = 0
           /\ Cardinality(must) <= nrout /\ nrout <= Cardinality(may)
@@ -194,7 +202,7 @@ GetInitiatorsOK(S, ai, a, t, nrin, ret, errno, nrout, filled) ==
        ELSE IF <<a, t>> \in S.weak THEN
             \/ ret = -1
             \/ /\ ret = 0 /\ Len(filled) = Min2(nrin, nrout)
-               /\ \A i \in DOMAIN filled : filled[i][2] \in AnyVals(S, a, t)
+               /\ \A i \in DOMAIN filled : filled[i][2] \in PoolVals(S, a, t)
        ELSE /\ ret = 0 /\ nrout = Cardinality(es) /\ Len(filled) = Min2(nrin, nrout)
             /\ \A i \in DOMAIN filled : \E e \in es : e.ini = filled[i][1] /\ e.val = filled[i][2]
             /\ \A i, j \in DOMAIN filled : i # j => filled[i][1] # filled[j][1]
@@ -205,7 +213,7 @@ BestTargetOK(S, ai, a, q, qf, ret, errno, t, val) ==
   ELSE LET f == ai.flags
            T == TargetsOf(S, a)
            strong == UNION {{<<t2, v>> : v \in MatchVals(S, a, f, t2, q)} : t2 \in {x \in T : ~Loose(S, a, f, x, q)}}
-           loose == UNION {{<<t2, v>> : v \in AnyVals(S, a, t2)} : t2 \in {x \in T : Loose(S, a, f, x, q)}}
+           loose == UNION {{<<t2, v>> : v \in PoolVals(S, a, t2)} : t2 \in {x \in T : Loose(S, a, f, x, q)}}
        IN \/ ret = 0 /\ <<t, val>> \in (strong \cup loose) /\ \A p \in strong : Better(f, val, p[2])
           \/ ret = -1 /\ errno = "ENOENT" /\ strong = {}
 
@@ -217,7 +225,7 @@ BestInitiatorOK(S, ai, a, t, ret, errno, ini, val) ==
        \* no value at all for this target: the header promises ENOENT "if there are no matching initiators";
        \* "no such target for this attribute" is reported as EINVAL by every other entry point; both are accepted
        ELSE IF es = {} THEN ret = -1 /\ errno \in {"ENOENT", "EINVAL"}
-       ELSE IF <<a, t>> \in S.weak THEN ret = -1 \/ (ret = 0 /\ val \in AnyVals(S, a, t))
+       ELSE IF <<a, t>> \in S.weak THEN ret = -1 \/ (ret = 0 /\ val \in PoolVals(S, a, t))
        ELSE ret = 0 /\ \E e \in es : e.ini = ini /\ e.val = val /\ \A e2 \in es : Better(f, val, e2.val)
 
 \* hwloc_get_local_numanode_objs: flags LARGER_LOCALITY 1, SMALLER_LOCALITY 2, ALL 4
